@@ -6,9 +6,9 @@ cd "$(dirname "$0")/.."
 OUT=${OUT:-build/selftest.tsv}
 mkdir -p build; : > $OUT
 pass=0; fail=0
-run() { # patch props label
+run() { # patch props label [tier]
   for p in $(echo $2 | tr , ' '); do
-    line=$(tools/seedrun.py $1 $p quick 2>&1 | grep -E "exit=" | head -1)
+    line=$(tools/seedrun.py $1 $p ${4:-quick} 2>&1 | grep -E "exit=" | head -1)
     rc=$(echo "$line" | sed -n 's/.* exit=\([0-9]*\) .*/\1/p')
     sig=$(echo "$line" | sed -n 's/.*---- \(.*\)/\1/p' | cut -c1-160)
     printf "%s\t%s\t%s\t%s\n" "$3" "$p" "$rc" "$sig" >> $OUT
@@ -17,5 +17,5 @@ run() { # patch props label
   done
 }
 for f in mutants/*.diff; do run $f $(basename $f | cut -d- -f2) $(basename $f .diff); done
-for d in seeded/*/; do id=$(basename $d); grep -q '"superseded"' $d/meta.json && continue; also=$(python3 -c "import json,sys; print(\",\".join(json.load(open(sys.argv[1])).get(\"also\",[])))" $d/meta.json 2>/dev/null); run $d/patch.diff ${id%-*}${also:+,$also} $id; done
+for d in seeded/*/; do id=$(basename $d); grep -q '"superseded"' $d/meta.json && continue; also=$(python3 -c "import json,sys; print(\",\".join(json.load(open(sys.argv[1])).get(\"also\",[])))" $d/meta.json 2>/dev/null); tier=$(python3 -c "import json,sys; print(json.load(open(sys.argv[1])).get(\"tier\",\"quick\"))" $d/meta.json 2>/dev/null); run $d/patch.diff ${id%-*}${also:+,$also} $id $tier; done
 echo "selftest: $pass detected, $fail missed"
